@@ -116,6 +116,10 @@ def gen_case(rng):
             ops.append({'op': 'clear_output'})
         elif k < 9:
             ops.append({'op': 'set_input', 'xs': [rng.choice(['1', 'two', '', '3.5']) for _ in range(rng.randrange(0, 4))]})
+            if rng.random() < 0.4:
+                ops[-1]['keep'] = True     # set_input(xs, clear=False): appended to what is queued
+            if rng.random() < 0.3:
+                ops[-1]['via'] = 'object'  # called on the Sandbox object rather than through pedal.sandbox.commands
         elif k < 11:
             ops.append({'op': 'queue_input', 'xs': [rng.choice(['q', '7', 'zz']) for _ in range(rng.randrange(0, 3))]})
         else:
@@ -153,7 +157,7 @@ def coq_op(op):
     if k == 'clear_output':
         return 'ClearOutput'
     if k == 'set_input':
-        return '(SetInput %s)' % clist([cstr_pts(x) for x in op['xs']])
+        return '(%s %s)' % ('QueueInput' if op.get('keep') else 'SetInput', clist([cstr_pts(x) for x in op['xs']]))
     if k == 'queue_input':
         return '(QueueInput %s)' % clist([cstr_pts(x) for x in op['xs']])
     return 'ClearInput'
@@ -190,7 +194,7 @@ def oracle(case, res):
         elif k == 'clear_output':
             texts = []
         elif k == 'set_input':
-            q = list(op['xs'])
+            q = (q if op.get('keep') else []) + list(op['xs'])
         elif k == 'queue_input':
             q = q + list(op['xs'])
         elif k == 'clear_input':
